@@ -32,7 +32,8 @@ StepPoly(e) ==
   /\ e.ev = "poly"
   /\ Report(e.case, PolyFails(e.v, e.segs, e.pts, e.pix, e.dm), [v |-> e.v, off |-> e.off])
   /\ DriftPoly(e)
-StepPanic(e) == e.ev = "panic"      \* totality is C08's business; counted by the recorder, no verdict
+\* a library call of this case panicked: the property promises a result for every input of its domain
+StepPanic(e) == e.ev = "panic" /\ Report(e.case, {"library_call_panicked"}, [msg |-> e.msg, loc |-> e.loc])
 Next == /\ l <= NRec
         /\ LET e == Rec[l] IN StepCase(e) \/ StepTri(e) \/ StepPair(e) \/ StepPoly(e) \/ StepPanic(e)
         /\ l' = l + 1
